@@ -68,6 +68,9 @@ F: Dict[str, Dict[str, Any]] = {
     'reexport-func-default': {'__files__': {'pk/rx2/__init__.py': '"""rx2"""\nfrom ._impl import moved, MovedK\n__all__ = ["moved", "MovedK"]\n',
                                             'pk/rx2/_impl.py': '"""impl"""\ndef helper(): "h"\ndef moved(a=helper, b: "helper" = 1):\n    "see L{pk.rx2._impl.helper} and L{helper} and L{moved}"\n'
                                                                'class MovedK:\n    "k L{helper}"\n    def m(self, x=helper): "L{helper} L{MovedK.m}"\n'}},
+    'reexport-default-const': {'__files__': {'pk/rx3/__init__.py': '"""rx3"""\nfrom ._b import func, Kd, CONST\n__all__ = ["func", "Kd"]\n',
+                                             'pk/rx3/_b.py': '"""b"""\nCONST = 1\n"""doc"""\nclass Helper:\n    "h"\ndef func(a=CONST, b: Helper = Helper()) -> Helper:\n    "doc"\n'
+                                                             'class Kd(Helper):\n    "k"\n    attr: Helper = CONST\n    def m(self, x=CONST, y: "Helper" = None): "m"\n'}},
     'reexport-onto-module-name': {'__files__': {'pk/pfoo/__init__.py': '"""pfoo"""\nfrom .foo import foo\n__all__ = ["foo"]\n', 'pk/pfoo/foo.py': '"""foo mod"""\ndef foo(): "f"\nclass Other:\n    "o"\n    def om(self): "L{foo}"\n'}},
     'rst-internal-targets': {'__files__': {'pk/rstmod.py': '__docformat__ = "restructuredtext"\n"""rst"""\ndef rf():\n    """\n    Summary, see more_ and [1]_.\n\n    .. _more:\n\n    Details here [#]_ and |sub|.\n\n'
                                                            '    .. [1] footnote text\n    .. [#] auto footnote\n    .. |sub| replace:: substituted\n    """\nclass RK:\n    """\n    Class summary with target_.\n\n    .. _target:\n\n    Body.\n    """\n'}},
